@@ -25,7 +25,7 @@ RULE = ('state = saved probability p (the only thing the restore reads besides t
         'real restore path and checked against the reference language: non-increasing, nothing above p, everything below p '
         'exactly once, everything equal to p at least once and at most its multiplicity; transitions = edges (p,k) of the '
         'history graph; non-trivial = node whose probability ties with another pre-terminal or with a parent of a lower node; '
-        'session layer: quit at every guess position j of real pcfg_guesser runs, resume chains via real .sav files, UUID refusal')
+        'session layer: quit at every guess position j of real pcfg_guesser runs, resume chains via real .sav files (first run under each of the 4 skip_brute/all_lower flag sets, resumed runs started without flags), UUID refusal')
 ASSUMPTIONS = [
     'canonicalisation: two histories that save the same max_probability start identical processes (restore reads only min/max probability and the ruleset)',
     'min_probability is always 0.0 (the tool never writes another value)',
